@@ -1963,6 +1963,9 @@ func (p *Parser) parseExpressionSuffix(left IExpr, prec, precLeft OpPrec) IExpr 
 			if OpAssign < prec {
 				return left
 			} else if precLeft < OpLHS {
+				if p.prevLT && tt == DivEqToken {
+					return left // automatic semicolon insertion, a regular expression follows
+				}
 				p.fail("expression")
 				return nil
 			}
@@ -2167,6 +2170,9 @@ func (p *Parser) parseExpressionSuffix(left IExpr, prec, precLeft OpPrec) IExpr 
 			if OpMul < prec {
 				return left
 			} else if precLeft < OpMul {
+				if p.prevLT && tt == DivToken {
+					return left // automatic semicolon insertion, a regular expression follows
+				}
 				p.fail("expression")
 				return nil
 			}
@@ -2177,6 +2183,9 @@ func (p *Parser) parseExpressionSuffix(left IExpr, prec, precLeft OpPrec) IExpr 
 			if OpAdd < prec {
 				return left
 			} else if precLeft < OpAdd {
+				if p.prevLT {
+					return left // automatic semicolon insertion, a unary expression follows
+				}
 				p.fail("expression")
 				return nil
 			}
